@@ -6,7 +6,8 @@
     header -> body unless HEAD); [conn_run] is the request loop of [handle_connection]; [parse_responses] is
     the strict client of the property: one response per request method, bodies read by content-length (none for
     HEAD, 1xx, 204, 304), nothing may be left over.
-    [reply_ok] are the invariants of the [http] crate for what a handler / [handle_cache] returns (status
+    [app_ok app I]: the application keeps an invariant [I] of its state under which its replies satisfy
+    [reply_ok]; [reply_ok] are the invariants of the [http] crate for what a handler / [handle_cache] returns (status
     100..999, lower-case token names, values without CR/LF/NUL.., no transfer-encoding, not HTTP/0.9) plus: a
     1xx/204/304 reply has no body, and the range of [sanitize_request] has start < end.  [package_ok]: Package
     extensions leave version, status and content-length alone.  [polite]: the client addresses a configured
@@ -56,9 +57,9 @@ Proof. exact head_has_no_body_lemma. Qed.
 Theorem one_response_per_request :
   forall (Q A : Type) (q_method : Q -> N) (q_content_length : Q -> option bytes) (q_known_host : Q -> bool)
          (q_head : Q -> bytes) (app : A -> Q -> A * reply0 * option N) (error_body : N -> option bytes -> bytes)
-         (package : Q -> head -> head) (too_many_body : bytes),
-  app_ok Q A app -> packages_ok Q package ->
-  forall (hs : list (hreq Q)) (a : A),
+         (package : Q -> head -> head) (too_many_body : bytes) (I : A -> Prop),
+  app_ok Q A app I -> packages_ok Q package ->
+  forall (hs : list (hreq Q)) (a : A), I a ->
   Forall (polite Q q_method q_content_length q_known_host) hs ->
   exists ss : list sent,
     conn_run Q A q_method q_content_length q_known_host q_head app error_body package too_many_body true true a (Open []) hs
@@ -143,8 +144,8 @@ Qed.
 Example ex_package_ok : package_ok (fun h => h).
 Proof. exact package_id_ok. Qed.
 (** an application meeting [app_ok]: every request is answered with [ex_reply], bodies are read up to 5 bytes *)
-Example ex_app_ok : app_ok unit unit (fun a _ => (a, ex_reply, Some 5)) /\ packages_ok unit (fun _ h => h).
-Proof. split; [intros a q; exact ex_reply_ok | intros q; exact package_id_ok]. Qed.
+Example ex_app_ok : app_ok unit unit (fun a _ => (a, ex_reply, Some 5)) (fun _ => True) /\ packages_ok unit (fun _ h => h).
+Proof. split; [intros a q _; split; [exact ex_reply_ok | exact Logic.I] | intros q; exact package_id_ok]. Qed.
 (** GET, HEAD and a 416 on one connection: what is written and what the strict client reads *)
 Example ex_sequence :
   exists g h e,
